@@ -4,7 +4,7 @@
 cd /verif
 LANES=${LANES:-2}
 pat=${1:-.}
-ls -d seeded/*/ | sed 's#/$##' | grep -E "$pat" > /tmp/regress.list
+ls -d seeded/*/ | sed 's#/$##' | grep -E -- "$pat" > /tmp/regress.list
 split -n l/$LANES -d /tmp/regress.list /tmp/regress.lane.
 for f in /tmp/regress.lane.*; do
   lane=${f##*.}
